@@ -108,7 +108,7 @@ class C13(Prop):
                     out.append(V(pid, "C13/copy-talks-to-tracker", "process %d sent %s for %s created by %d" % (wpid, cmd, name, creators[name])))
                     break
         for x in k.log:
-            if x[0] == "sem_unlink" and x[1] in creators and x[2] != creators[x[1]] and k.procs[x[2]].role != "tracker":
+            if x[0] == "sem_unlink" and x[1] in creators and x[2] != creators[x[1]] and x[2] in k.procs and k.procs[x[2]].role != "tracker":
                 out.append(V(pid, "C13/copy-unlinks", "process %d unlinked %s created by %d" % (x[2], x[1], creators[x[1]])))
         if res.outcome != "complete":
             return out       # tree has not ended (or inconclusive)
